@@ -373,6 +373,7 @@ Inductive op :=
 | ConfTranslate (i : nat) (k : Z) (v : vec3)
 | ConfTransform (i : nat) (k : Z) (M : mat3)
 | ConfRead (i : nat) (k : Z)
+| ConfStore (i : nat) (k : Z)                           (* the conformer through molli.chem.io's molecule codec (as a library stores it) *)
 | IterNew (i : nat)
 | IterNext (t : nat)
 | Nested (i : nat)
@@ -436,6 +437,10 @@ Definition read_fun (o : op) : option (nat * (ens -> option out)) :=
                                       | Some c, Some q => Some (OConf c q)
                                       | _, _ => None
                                       end)
+  | ConfStore i k => Some (i, fun e => match c_get_coords k e, c_get_charges k e with
+                                       | Some c, Some q => Some (OConf c q)
+                                       | _, _ => None
+                                       end)
   | Nested i => Some (i, fun e => Some (OPairs (nested_ids (nc e))))
   | LoopDump i => Some (i, fun e => Some (OIds (map Z.of_nat (for_ids (nc e)))))
   | Slice i a b c => Some (i, fun e => option_map OIds (slice_ids (nc e) a b c))
